@@ -17,6 +17,6 @@ out.append("")
 out.append("Totals: " + "; ".join("round %d: %d caught as they stood, %d missed and closed" % (r, c, mi) for r, (c, mi) in sorted(stats.items())) + ".")
 p = "/verif/DESIGN.md"
 s = open(p).read()
-s = re.sub(r"<!-- SEEDED-TABLE-BEGIN -->.*?<!-- SEEDED-TABLE-END -->", "<!-- SEEDED-TABLE-BEGIN -->\n" + "\n".join(out) + "\n<!-- SEEDED-TABLE-END -->", s, flags=re.S)
+s = re.sub(r"<!-- SEEDED-TABLE-BEGIN -->.*?<!-- SEEDED-TABLE-END -->", lambda m: "<!-- SEEDED-TABLE-BEGIN -->\n" + "\n".join(out) + "\n<!-- SEEDED-TABLE-END -->", s, flags=re.S)
 open(p, "w").write(s)
 print("\n".join(out[-3:]))
